@@ -1,13 +1,32 @@
 package harness
 
 // Registry of byte-level entry points into the library (shared by C19, the in-flight journal and replay).
+// Every entry takes one byte string; structured inputs travel as a JSON envelope.
 
 import (
 	"encoding/json"
 	"fmt"
 	"runtime/debug"
+	"sync"
 
+	"github.com/trustbloc/sidetree-go/pkg/api/operation"
+	"github.com/trustbloc/sidetree-go/pkg/api/protocol"
+	"github.com/trustbloc/sidetree-go/pkg/canonicalizer"
+	"github.com/trustbloc/sidetree-go/pkg/commitment"
+	"github.com/trustbloc/sidetree-go/pkg/document"
+	"github.com/trustbloc/sidetree-go/pkg/hashing"
+	"github.com/trustbloc/sidetree-go/pkg/jws"
+	"github.com/trustbloc/sidetree-go/pkg/jwsutil"
+	"github.com/trustbloc/sidetree-go/pkg/patch"
+	longform "github.com/trustbloc/sidetree-go/pkg/vdr/sidetreelongform"
+	"github.com/trustbloc/sidetree-go/pkg/vdr/sidetreelongform/dochandler"
 	"github.com/trustbloc/sidetree-go/pkg/versions/1_0/doccomposer"
+	"github.com/trustbloc/sidetree-go/pkg/versions/1_0/doctransformer/didtransformer"
+	"github.com/trustbloc/sidetree-go/pkg/versions/1_0/doctransformer/doctransformer"
+	"github.com/trustbloc/sidetree-go/pkg/versions/1_0/docvalidator/didvalidator"
+	"github.com/trustbloc/sidetree-go/pkg/versions/1_0/docvalidator/docvalidator"
+	"github.com/trustbloc/sidetree-go/pkg/versions/1_0/model"
+	"github.com/trustbloc/sidetree-go/pkg/versions/1_0/operationparser/patchvalidator"
 )
 
 // callNoPanic runs f and converts a panic into an error carrying the stack.
@@ -29,8 +48,44 @@ func entryPoints() map[string]entryFunc { return entryRegistry }
 
 func registerEntry(name string, f entryFunc) { entryRegistry[name] = f }
 
+var (
+	entryOnce    sync.Once
+	entryStack   *libStack
+	entryHandler *dochandler.DocumentHandler
+	entryVDR     *longform.VDR
+	entryState   *protocol.ResolutionModel // a created state to apply operations to
+	entrySuffix  string
+)
+
+func entrySetup() {
+	entryOnce.Do(func() {
+		entryStack = newStack(wideProtocol())
+		var err error
+		if entryHandler, err = dochandler.New("did:ion"); err != nil {
+			panic(err)
+		}
+		if entryVDR, err = longform.New(); err != nil {
+			panic(err)
+		}
+		keys := pool()[ktEd25519]
+		cr := newCreate(18, keys[0], keys[1], []interface{}{
+			map[string]interface{}{"action": "add-public-keys", "publicKeys": []interface{}{map[string]interface{}{"id": "k1", "type": tJWK2020, "purposes": []interface{}{pAuth}, "publicKeyJwk": docJWK(pool()[ktP256][0])}}},
+			map[string]interface{}{"action": "add-services", "services": []interface{}{map[string]interface{}{"id": "s1", "type": "t", "serviceEndpoint": "https://example.com/a"}}},
+			map[string]interface{}{"action": "ietf-json-patch", "patches": []interface{}{map[string]interface{}{"op": "add", "path": "/o", "value": map[string]interface{}{"y": []interface{}{"a", float64(1)}}}}},
+		}, nil, "")
+		entrySuffix = cr.suffixFor(18)
+		entryState, err = entryStack.Applier.Apply(anchoredBytes("create", cr.bytes(), entrySuffix, anchorMeta{Time: 1}), &protocol.ResolutionModel{})
+		if err != nil {
+			panic(err)
+		}
+	})
+}
+
+// entryKeys are the chain keys of entryState (update key = pool ed[1], recovery key = pool ed[0]).
+func entryKeys() chainKeys { return chainKeys{Update: pool()[ktEd25519][1], Recovery: pool()[ktEd25519][0]} }
+
 func init() {
-	// {"doc": <document>, "patches": [<patch>...]} -> DocumentComposer.ApplyPatches
+	// {"doc": <document>, "patches": [<patch>...]} -> DocumentComposer.ApplyPatches (+ transformation of the result)
 	registerEntry("ApplyPatches", func(in []byte) {
 		var x struct {
 			Doc     map[string]interface{} `json:"doc"`
@@ -49,6 +104,162 @@ func init() {
 		if err != nil {
 			return
 		}
-		_, _ = doccomposer.New().ApplyPatches(libDoc(x.Doc), lps)
+		res, err := doccomposer.New().ApplyPatches(libDoc(x.Doc), lps)
+		if err == nil && res != nil {
+			transformAll(res)
+		}
 	})
+	// raw request bytes -> every parser entry point, operation processing, anchored form
+	registerEntry("ParseRequest", func(in []byte) {
+		entrySetup()
+		p := entryStack.Parser
+		_, _ = p.Parse("did:ion", in)
+		for _, batch := range []bool{false, true} {
+			if op, err := p.ParseOperation("did:ion", in, batch); err == nil && op != nil {
+				if a, err := model.GetAnchoredOperation(op); err == nil {
+					_, _ = entryStack.Applier.Apply(a, entryState)
+					_, _ = entryStack.Applier.Apply(a, &protocol.ResolutionModel{})
+				}
+			}
+		}
+		_, _ = p.GetRevealValue(in)
+		_, _ = p.GetCommitment(in)
+		_, _ = entryHandler.ProcessOperation(in)
+		_ = docvalidator.New().IsValidPayload(in)
+		_ = didvalidator.New().IsValidPayload(in)
+	})
+	// {"type": t, "request": "<bytes>"} -> Applier.Apply on an existing and on an empty state
+	registerEntry("Apply", func(in []byte) {
+		entrySetup()
+		var x struct {
+			Type    string `json:"type"`
+			Request string `json:"request"`
+		}
+		if json.Unmarshal(in, &x) != nil {
+			return
+		}
+		for _, typ := range []string{x.Type, "create", "update", "recover", "deactivate", "other"} {
+			a := anchoredBytes(typ, []byte(x.Request), entrySuffix, anchorMeta{Time: 5, Canonical: "c"})
+			if res, err := entryStack.Applier.Apply(a, entryState); err == nil && res != nil && res.Doc != nil {
+				transformAll(res.Doc)
+			}
+			if res, err := entryStack.Applier.Apply(a, &protocol.ResolutionModel{}); err == nil && res != nil && res.Doc != nil {
+				transformAll(res.Doc)
+			}
+		}
+	})
+	// DID string -> ParseDID, ResolveDocument, VDR.Read
+	registerEntry("ResolveDID", func(in []byte) {
+		entrySetup()
+		did := string(in)
+		_, _, _ = entryStack.Parser.ParseDID("did:ion", did)
+		_, _, _ = entryStack.Parser.ParseDID("", did)
+		_, _ = entryHandler.ResolveDocument(did)
+		_, _ = entryVDR.Read(did)
+	})
+	// {"jws": s, "jwk": <object>} -> ParseJWS, VerifyJWS, VerifySignature, JWK decoding
+	registerEntry("JWS", func(in []byte) {
+		var x struct {
+			JWS string          `json:"jws"`
+			JWK json.RawMessage `json:"jwk"`
+		}
+		if json.Unmarshal(in, &x) != nil {
+			return
+		}
+		_, _ = jwsutil.ParseJWS(x.JWS)
+		_ = jwsutil.IsCompactJWS(x.JWS)
+		var k jwsutil.JWK
+		_ = k.UnmarshalJSON(x.JWK)
+		var j jws.JWK
+		if json.Unmarshal(x.JWK, &j) == nil {
+			_ = j.Validate()
+			_, _ = jwsutil.VerifyJWS(x.JWS, &j)
+			_, _ = jwsutil.GetED25519PublicKey(&j)
+			_ = jwsutil.VerifySignature(&j, []byte(x.JWS), []byte("msg"))
+			_, _ = commitment.GetCommitment(&j, 18)
+			_, _ = commitment.GetRevealValue(&j, 19)
+		}
+	})
+	// arbitrary bytes -> canonicalizer, hashing, patch / document decoding, validators
+	registerEntry("Bytes", func(in []byte) {
+		_, _ = canonicalizer.MarshalCanonical(in)
+		_, _ = hashing.CalculateModelMultihash(in, 18)
+		_ = hashing.IsValidModelMultihash(in, string(in))
+		_, _ = hashing.GetMultihashCode(string(in))
+		_ = hashing.IsSupportedMultihash(string(in))
+		_, _ = commitment.GetCommitmentFromRevealValue(string(in))
+		if p, err := patch.FromBytes(in); err == nil {
+			validateAndApply(p)
+		}
+		s := string(in)
+		_, _ = patch.PatchesFromDocument(s)
+		_, _ = patch.NewReplacePatch(s)
+		_, _ = patch.NewJSONPatch(s)
+		_, _ = patch.NewAddPublicKeysPatch(s)
+		_, _ = patch.NewRemovePublicKeysPatch(s)
+		_, _ = patch.NewAddServiceEndpointsPatch(s)
+		_, _ = patch.NewRemoveServiceEndpointsPatch(s)
+		_, _ = patch.NewAddAlsoKnownAs(s)
+		_, _ = patch.NewRemoveAlsoKnownAs(s)
+		_ = docvalidator.New().IsValidOriginalDocument(in)
+		_ = didvalidator.New().IsValidOriginalDocument(in)
+		_ = docvalidator.New().IsValidPayload(in)
+		_ = didvalidator.New().IsValidPayload(in)
+		var k jwsutil.JWK
+		_ = k.UnmarshalJSON(in)
+		if d, err := document.FromBytes(in); err == nil && d != nil {
+			transformAll(d)
+		}
+	})
+	// patch bytes -> FromBytes, Validate, ApplyPatches (validated patches only reach the composer in the protocol flow; the
+	// composer is nevertheless exercised with every parseable patch)
+	registerEntry("Patch", func(in []byte) {
+		if p, err := patch.FromBytes(in); err == nil {
+			validateAndApply(p)
+		}
+	})
+}
+
+var sampleDocForPatches = map[string]interface{}{
+	"publicKey":   []interface{}{map[string]interface{}{"id": "k1", "type": tJWK2020, "purposes": []interface{}{pAuth}, "publicKeyJwk": map[string]interface{}{"kty": "EC", "crv": "P-256", "x": "bxuOPK3rHDQKmb7hZce2qXdV_aAXuWh2ig0WidPT9AQ", "y": "OiUNRmGSZ053tI71qD3npJMUabZ4M9SNRnKWSwtPN7w"}}},
+	"service":     []interface{}{map[string]interface{}{"id": "s1", "type": "t", "serviceEndpoint": "https://example.com/a"}},
+	"alsoKnownAs": []interface{}{"https://example.com/a"},
+	"o":           map[string]interface{}{"y": []interface{}{"a", float64(1)}},
+	"arr":         []interface{}{"e0", float64(1), map[string]interface{}{"in": "arr"}},
+}
+
+func validateAndApply(p patch.Patch) {
+	verr := patchvalidator.Validate(p)
+	for _, d := range []map[string]interface{}{sampleDocForPatches, {}} {
+		res, err := doccomposer.New().ApplyPatches(libDoc(d), []patch.Patch{p})
+		if err == nil && res != nil && verr == nil {
+			transformAll(res)
+		}
+	}
+	_, _ = p.Bytes()
+}
+
+// transformAll runs both transformers over a document assembled by the composer.
+func transformAll(doc document.Document) {
+	rm := func() *protocol.ResolutionModel {
+		c, err := jsonRoundTrip(doc)
+		if err != nil {
+			return nil
+		}
+		m, ok := c.(map[string]interface{})
+		if !ok {
+			return nil
+		}
+		return &protocol.ResolutionModel{Doc: m, RecoveryCommitment: "r", UpdateCommitment: "u", VersionID: "v",
+			PublishedOperations: []*operation.AnchoredOperation{{Type: "create", CanonicalReference: "a"}}}
+	}
+	for _, base := range []bool{true, false} {
+		if r := rm(); r != nil {
+			info := protocol.TransformationInfo{"id": "did:ion:abc", "published": true}
+			_, _ = didtransformer.New(didtransformer.WithBase(base), didtransformer.WithIncludePublishedOperations(true)).TransformDocument(r, info)
+		}
+	}
+	if r := rm(); r != nil {
+		_, _ = doctransformer.New().TransformDocument(r, protocol.TransformationInfo{"id": "did:ion:abc", "published": false})
+	}
 }
